@@ -38,6 +38,10 @@ pub enum Scen {
     HolderClose,
     CpClose,
     Full,
+    /// the base chain already carries the holder's commitment, the sweep of its main output and
+    /// both first-level HTLC spends: what is left to explore are the second-level sweeps that
+    /// complete the close (and their reorganisation)
+    HolderHtlcsOut,
 }
 
 #[derive(Clone, Debug, Serialize, Deserialize)]
@@ -74,6 +78,8 @@ pub struct C14State {
     pub chain: SimChain,
     pub names: Vec<Vec<T>>,
     pub dead: bool,
+    /// menu transactions confirmed below the explored region
+    pub base_conf: Vec<(T, Transaction)>,
     /// the harness's own model of how many headers the tracker remembers (= how many blocks may
     /// be disconnected): min(previous + 1, window) on connect, previous - 1 on disconnect
     pub remembered: usize,
@@ -99,11 +105,12 @@ impl C14Model {
             Scen::HolderClose => vec![T::HC, T::S, T::H1o, T::H1r, T::H2o, T::H2r],
             Scen::CpClose => vec![T::CC, T::S, T::H1o, T::H1r, T::H2o],
             Scen::Full => vec![T::F, T::D, T::D2, T::M, T::HC, T::CC, T::RC, T::S, T::H1o, T::H1r, T::H2r, T::U],
+            Scen::HolderHtlcsOut => vec![T::H2o, T::H2r, T::U],
         }
     }
 
     /// build the world up to the start of the explored region
-    fn fresh(&self) -> (World, Funded, SimChain) {
+    fn fresh(&self) -> (World, Funded, SimChain, Vec<(T, Transaction)>) {
         let w = World::new(wcfg());
         let f = fund_channel(&w, 1, self.cfg.anchors, true);
         let mut chain = w.new_sim_chain();
@@ -112,14 +119,26 @@ impl C14Model {
         let b = make_block(&chain.tip().0, chain.height() + 1, 0, vec![]);
         let r = w.connect(&mut chain, b, self.cfg.delivery);
         assert!(r.is_ok(), "base block: {}", r.tag());
-        if matches!(self.cfg.scen, Scen::HolderClose | Scen::CpClose) {
+        if matches!(self.cfg.scen, Scen::HolderClose | Scen::CpClose | Scen::HolderHtlcsOut) {
             let b = make_block(&chain.tip().0, chain.height() + 1, 0, vec![f.funding_tx.clone()]);
             let r = w.connect(&mut chain, b, self.cfg.delivery);
             assert!(r.is_ok(), "funding block: {}", r.tag());
         }
+        let mut base_conf = vec![];
+        if self.cfg.scen == Scen::HolderHtlcsOut {
+            let mut txs = vec![];
+            for t in [T::HC, T::S, T::H1o, T::H1r] {
+                let tx = tx_for(t, &f, &base_conf).expect("base transaction constructible");
+                base_conf.push((t, tx.clone()));
+                txs.push(tx);
+            }
+            let b = make_block(&chain.tip().0, chain.height() + 1, 3, txs);
+            let r = w.connect(&mut chain, b, self.cfg.delivery);
+            assert!(r.is_ok(), "close block: {}", r.tag());
+        }
         // the explored region starts here
         let base = SimChain::new(chain.tip(), chain.height());
-        (w, f, base)
+        (w, f, base, base_conf)
     }
 }
 
@@ -179,7 +198,7 @@ impl C14State {
 
     /// transactions confirmed on the current chain (explored region), with their names
     fn confirmed(&self) -> Vec<(T, Transaction)> {
-        let mut v = vec![];
+        let mut v = self.base_conf.clone();
         for (names, (b, _)) in self.names.iter().zip(self.chain.blocks.iter()) {
             for (i, n) in names.iter().enumerate() {
                 v.push((*n, b.txdata[i + 1].clone()));
@@ -197,7 +216,7 @@ impl C14Model {
     /// all UTXO-valid ordered blocks of at most max_block menu transactions
     fn valid_blocks(&self, s: &C14State) -> Vec<Vec<T>> {
         let base_conf = s.confirmed();
-        let funding_confirmed_in_base = matches!(self.cfg.scen, Scen::HolderClose | Scen::CpClose);
+        let funding_confirmed_in_base = matches!(self.cfg.scen, Scen::HolderClose | Scen::CpClose | Scen::HolderHtlcsOut);
         let menu = self.menu();
         let mut out: Vec<Vec<T>> = vec![vec![]];
         let mut frontier: Vec<(Vec<T>, Vec<(T, Transaction)>)> = vec![(vec![], base_conf.clone())];
@@ -315,12 +334,12 @@ impl Model for C14Model {
     }
 
     fn init(&self) -> C14State {
-        let (w, f, chain) = self.fresh();
+        let (w, f, chain, base_conf) = self.fresh();
         let remembered = {
             let t = w.node.get_tracker();
             t.headers().len()
         };
-        C14State { remembered, w: Some(w), f, chain, names: vec![], dead: false }
+        C14State { remembered, w: Some(w), f, chain, names: vec![], dead: false, base_conf }
     }
 
     fn alive(&self, s: &C14State) -> bool {
@@ -464,8 +483,8 @@ impl Model for C14Model {
             // differential oracle: a fresh signer that connects only the surviving chain
             let names = s.names.clone();
             let fresh = catch(|| {
-                let (w2, f2, base) = self.fresh();
-                let mut st2 = C14State { remembered: 0, w: Some(w2), f: f2, chain: base, names: vec![], dead: false };
+                let (w2, f2, base, base_conf) = self.fresh();
+                let mut st2 = C14State { remembered: 0, w: Some(w2), f: f2, chain: base, names: vec![], dead: false, base_conf };
                 for n in &names {
                     let b = self.build_block(&st2, n);
                     let w = st2.w.as_ref().unwrap();
@@ -512,6 +531,7 @@ pub fn configs(tier: Tier) -> Vec<C14Cfg> {
             v.push(C14Cfg { scen: Scen::HolderClose, anchors: false, delivery: Delivery::Compact, max_chain: 2, max_block: 2, restart: false, deep: false, monitors: false });
             v.push(C14Cfg { scen: Scen::CpClose, anchors: true, delivery: Delivery::Streamed, max_chain: 2, max_block: 2, restart: false, deep: false, monitors: false });
             v.push(C14Cfg { scen: Scen::Funding, anchors: false, delivery: Delivery::Compact, max_chain: 1, max_block: 1, restart: false, deep: true, monitors: false });
+            v.push(C14Cfg { scen: Scen::HolderHtlcsOut, anchors: false, delivery: Delivery::Compact, max_chain: 2, max_block: 2, restart: false, deep: false, monitors: false });
         }
         Tier::Thorough => {
             for delivery in [Delivery::Compact, Delivery::Streamed] {
@@ -521,6 +541,7 @@ pub fn configs(tier: Tier) -> Vec<C14Cfg> {
                     v.push(C14Cfg { scen: Scen::CpClose, anchors, delivery, max_chain: 3, max_block: 3, restart: false, deep: false, monitors: false });
                 }
                 v.push(C14Cfg { scen: Scen::Full, anchors: false, delivery, max_chain: 3, max_block: 2, restart: false, deep: false, monitors: false });
+                v.push(C14Cfg { scen: Scen::HolderHtlcsOut, anchors: delivery == Delivery::Streamed, delivery, max_chain: 3, max_block: 2, restart: true, deep: false, monitors: false });
                 v.push(C14Cfg { scen: Scen::Funding, anchors: false, delivery, max_chain: 2, max_block: 2, restart: true, deep: true, monitors: false });
             }
         }
